@@ -40,7 +40,10 @@ PROLOGUE = ["#define SELF SELF", "#define PING PONG", "#define PONG PING", "#def
 NOISE = ["/* c */", "/** doc **/", "/***/", "/**/", "/* a", "// c", "// #endif", "/* #endif */", "/* #else */ // #elif 1",
          "#", "# ", "#  /* c */", 'extern const char *vs; /* "/*" */', "/* \" */", "/* ' */",
          "/* multi\n   line #endif\n   comment **/", "// trailing backslash is not used here",
-         "#define VNOISE \"/*\"", "#define VNOISE2 '\"'", "#define VNOISE3 \"//\" /* c */", "#undef VNOISE"]
+         "#define VNOISE \"/*\"", "#define VNOISE2 '\"'", "#define VNOISE3 \"//\" /* c */", "#undef VNOISE",
+         # a backslash-newline splices the next line onto a // comment: the "directive" below is comment text
+         "// splice \\\n#endif", "// splice \\\n#else", "// splice \\\n#define M 1", "// splice \\\n#undef M",
+         "int VN; // splice \\\n#elif 1", "// two splices \\\n \\\n#endif"]
 # shapes that only conforming scanners need to get right inside a SKIPPED group (not valid declarations)
 NOISE_SKIPPED_ONLY = ['"/*"', "'\"'", "don't /* c */", '"unterminated', "@ $ ` \\ stray", "/* x */ text /* y */"]
 # (cfg, simulate traces per worker or None)
@@ -51,7 +54,8 @@ BATCH = 2500
 
 
 # layouts of a directive line: all denote the same directive to a conforming preprocessor
-HASH = ["#", "# ", "#\t", "  #", "#/**/", "# /* c */ "]
+# (a comment is one blank, so a '#' after a comment that began the line still introduces a directive)
+HASH = ["#", "# ", "#\t", "  #", "#/**/", "# /* c */ ", "/* c */ #", "/**/#", " /* a */ /* b */ # ", "/* a\n b */#"]
 TRAIL = ["", "", " // trailing", " /* trailing */", "   "]
 
 
